@@ -322,10 +322,7 @@ func (f *frame) chanSend(i *ssa.Send, n *node, st *State) *State {
 	v := f.get(i.X, n, st)
 	// assertions attached to this send (v: the value sent)
 	if f.c != nil {
-		fld := chanField(i.Chan)
-		if j := strings.LastIndex(fld, "."); j >= 0 {
-			fld = fld[j+1:]
-		}
+		fld := chanSiteName(i.Chan)
 		if fld != "" {
 			site := fmt.Sprintf("send %s#%d", fld, f.siteOrd("send "+fld, i.Pos()))
 			if as := f.c.CallAsserts[site]; len(as) > 0 {
@@ -396,10 +393,7 @@ func (f *frame) chanRecv(i *ssa.UnOp, ch Value, n *node, st *State) *State {
 	f.closable = f.x.isClosable(i.X)
 	// assertions attached to this blocking receive
 	if f.c != nil {
-		fld := chanField(i.X)
-		if j := strings.LastIndex(fld, "."); j >= 0 {
-			fld = fld[j+1:]
-		}
+		fld := chanSiteName(i.X)
 		if fld != "" {
 			site := fmt.Sprintf("recv %s#%d", fld, f.siteOrd("recv "+fld, i.Pos()))
 			if as := f.c.CallAsserts[site]; len(as) > 0 {
@@ -542,6 +536,20 @@ func (f *frame) selectStmt(i *ssa.Select, n *node, st *State) *State {
 var _ = ssa.NaiveForm
 
 // chanField identifies the struct field a channel operand was loaded from.
+// chanSiteName: the name by which contracts address sends and receives on this channel: the field it is
+// loaded from, or the local variable that holds it.
+func chanSiteName(v ssa.Value) string {
+	if fld := chanField(v); fld != "" {
+		return lastField(fld)
+	}
+	if u, ok := v.(*ssa.UnOp); ok && u.Op == token.MUL {
+		if a, ok := u.X.(*ssa.Alloc); ok {
+			return a.Comment
+		}
+	}
+	return ""
+}
+
 func chanField(v ssa.Value) string {
 	switch u := v.(type) {
 	case *ssa.UnOp:
